@@ -135,7 +135,7 @@ def main():
         'setup_cmd': 'true',
         'hooks': {
             'guard': 'WAYLAND_DEBUG_VERIF',
-            'enable': 'no hooks in /repo: every seam is an injected parameter or a module attribute rebound by the rig (main.open, sys.stdin, runner.os, runner.subprocess, time.perf_counter, a fake gdb module on sys.path)',
+            'enable': 'no hooks in /repo: every seam is an injected parameter or a module attribute rebound by the rig (main.open, sys.stdin, runner.os, runner.subprocess, runner.threading (join timeout), time.perf_counter, a fake gdb module on sys.path)',
             'baseline_off_cmd': 'cd /repo && /venv/bin/python -m pytest -ra -q -p no:cacheprovider --timeout=900 --continue-on-collection-errors',
             'source_commits': [],
             'add_only': True,
